@@ -297,10 +297,14 @@ class C12(Check):
             kwv = True if isinstance(p, str) or p is True else p
             return P.proximal_operator(x, **{d["kw"]: kwv})
         f = getattr(P, d["fn"])
+        npk = getattr(self, "_param_kind", None) == "numpy"  # the same parameter handed over as a NumPy scalar (np.bool_, np.int64, np.float64)
         if op == "monotonicity":
-            return f(x, decreasing=(p == "decreasing"))
+            flag = (p == "decreasing")
+            return f(x, decreasing=np.bool_(flag) if npk else flag)
         if op in ("unimodality", "procrustes"):
             return f(x)
+        if npk and isinstance(p, (int, float)) and not isinstance(p, bool):
+            p = np.int64(p) if isinstance(p, int) else np.float64(p)
         return f(x, p)
 
     # ------------------------------------------------------------------ oracle on one returned point
@@ -459,8 +463,10 @@ class C12(Check):
             forms = [("mat", m2)] if d["layout"] == "mat" else [("1d", v1), ("mat", m2)]
             if d["layout"] != "mat" and float(case["scale"]) == 1.0:
                 forms.append(("col1", v1.reshape(-1, 1).copy()))  # a matrix with exactly one column (as a rank-1 factor is)
+                forms.append(("mat+numpy-scalar-parameter", m2.copy()))
         ctx.evaluations -= 1  # begin() counted the case; every library call below is counted instead
         for form, x_in in forms:
+            self._param_kind = "numpy" if form.endswith("numpy-scalar-parameter") else None
             if op in ("hard_sparsity", "normalized_sparsity"):
                 p = _resolve_k(ptok, x_in.size)
                 if p is None:
